@@ -380,7 +380,7 @@ pub fn env_script<W: Write>(w: &mut W, st: &mut EStats, id: u64, t: &mut dyn Tar
                 let cur = t.vol_of(a, id);
                 let bid = g.chance(1, 2);
                 let p = if g.chance(1, 2) { None } else { Some(price(g, bid)) };
-                let v = match g.below(4) { 0 => None, 1 => Some(cur.saturating_sub(1).max(1)), 2 => Some(cur.max(1)), _ => Some(cur + 1 + g.below(3) as u32) };
+                let v = match g.below(4) { 0 => None, 1 => Some(cur.saturating_sub(1).max(1)), 2 => Some(cur.max(1)), _ => Some(cur.saturating_add(1 + g.below(3) as u32)) };
                 EOp::Modify(a, id, p, v)
             } else {
                 // off-grid creation: rejected, consumes nothing
@@ -432,7 +432,7 @@ pub fn market_script<W: Write>(w: &mut W, st: &mut EStats, id: u64, t: &mut dyn 
             59..=70 if n > 0 => EOp::Direct(a, if g.chance(1, 2) { Op::Cancel(g.below(n as u64) as usize) } else { Op::EvCancel(g.below(n as u64) as usize) }),
             71..=82 if n > 0 => { let id = g.below(n as u64) as usize; let cur = t.vol_of(a, id);
                 let p = if g.chance(1, 2) { None } else { Some(pr(g)) };
-                let v = match g.below(3) { 0 => None, 1 => Some(cur.saturating_sub(1).max(1)), _ => Some(cur + 2) };
+                let v = match g.below(3) { 0 => None, 1 => Some(cur.saturating_sub(1).max(1)), _ => Some(cur.saturating_add(2)) };
                 EOp::Direct(a, if g.chance(1, 2) { Op::Modify(id, p, v) } else { Op::EvModify(id, p, v) }) }
             83..=85 => EOp::Direct(a, Op::CreatePlace { bid: g.chance(1, 2), vol: 2, trader: 9, price: Some(pr(g) + if tick > 1 { 1 } else { 0 }) }),
             86..=88 => if g.chance(1, 2) { EOp::Disable } else { EOp::Enable },
